@@ -224,11 +224,15 @@ def _unique_name(params: Any) -> str:
     if all_scalar:
         # Format: `pname1=pval1 pname2=pval2 pname3=pval3`
         keys = params.__params__.keys()
-        name = " ".join(f"{k}={str(getattr(params, k))}" for k in keys)
+        # Note `-0.0` equals `0.0`, shares its `Generator` cache entry, and so shares its name
+        vals = [
+            0.0 if isinstance(v, float) and v == 0 else v
+            for v in (getattr(params, k) for k in keys)
+        ]
+        name = " ".join(f"{k}={str(v)}" for k, v in zip(keys, vals))
 
         # String values which include our separators, or look like another type's value,
         # could make the readable names of two different parameter-sets coincide.
-        vals = [getattr(params, k) for k in keys]
         ambiguous = any(
             isinstance(v, str) and (v == "None" or " " in v or "=" in v) for v in vals
         )
@@ -256,6 +260,18 @@ def _unique_name(params: Any) -> str:
     h.update(data)
     # And return the (hex) digest as our unique name
     return h.hexdigest()
+
+
+def _number_by_value(val: Any) -> Any:
+    """Name numbers by value: `1.0` and `1`, and `-0.0` and `0`, are equal, share a `Generator` cache entry,
+    and hence must share a name. Integer-valued floats are named as that integer."""
+    if isinstance(val, float) and val.is_integer():
+        return int(val)
+    if isinstance(val, (list, tuple)):
+        return [_number_by_value(v) for v in val]
+    if isinstance(val, dict):
+        return {k: _number_by_value(v) for k, v in val.items()}
+    return val
 
 
 def hdl21_naming_encoder(obj: Any) -> Any:
@@ -302,7 +318,10 @@ def hdl21_naming_encoder(obj: Any) -> Any:
     # often invoking methods not supported on several Hdl21 types.
     # Convert to (shallow) dictionaries instead.
     if dataclasses.is_dataclass(obj):
-        return {f.name: getattr(obj, f.name) for f in dataclasses.fields(obj)}
+        return {
+            f.name: _number_by_value(getattr(obj, f.name))
+            for f in dataclasses.fields(obj)
+        }
 
     # Not an Hdl21 type. Hand off to pydantic.
     return pydantic_json_encoder(obj)
